@@ -566,12 +566,12 @@ Proof. vm_compute. repeat split. Qed.
      line_convert_set_address_*    DW_LNE_set_address at offset 0 keeps the private row at 0 (so base := operand is
                                    exact); after the row has advanced it TOMBSTONES the private row — the F10 class;
      line_convert_midseq_refuted / line_convert_vliw_refuted   the two known findings, as model witnesses.
-   MISSING for the full statement: the induction over the whole instruction stream that glues these steps to
-   C04's rows_model and C13's program_roundtrip_* (a simulation between LineRows::next_row and read_row with its
-   SetAddress / ConvertRow states); whole programs are decided by the oracle streams c12.line / c12.vliw / c12.line5
-   and by the model stream c12.lineconv. *)
+     line_convert_sound_script_partial   the whole-program simulation (see below): events = reader rows.
+   MISSING for the full statement: tombstone operands and the composition with C13's program_roundtrip_* (see the
+   comment at line_convert_sound_script_partial); whole programs are additionally decided by the oracle streams
+   c12.line / c12.vliw / c12.line5 and by the model stream c12.lineconv. *)
 Require GV.Spec.LineSpec GV.Model.LineRd GV.Model.LineWr GV.Model.ConvertLine GV.Proofs.LineRdMono
-        GV.Proofs.ConvertLineProofs GV.Proofs.ConvertLineSafe.
+        GV.Proofs.ConvertLineProofs GV.Proofs.ConvertLineSafe GV.Proofs.ConvertLineSim.
 
 Theorem line_convert_address_offset_exact : forall c,
   match ConvertLine.convert_address_offset c with
@@ -680,6 +680,56 @@ Proof.
   - destruct dbg; vm_compute; eexists; reflexivity.
 Qed.
 
+(* line_convert_sound, SCRIPT LEVEL (Proofs/ConvertLineSim.v: a lock-step simulation between C04's
+   LineRows::next_row on the real row and ConvertLineProgram::read_row on its private row, every instruction, the
+   SetAddress / ConvertRow states, define_file, any bytes as the program).
+   For every header LineProgramHeader::parse can return (hdr_ok; VLIW headers included), both build modes, every
+   program outside the F10 class (known_midseq = false) whose DW_LNE_set_address operands are below the reader's
+   tombstone values (addrs_below: < 2^(8*address_size) - 2): IF the reader's rows() runs to the end and the
+   converter's `while let Some(row) = read_row()?` runs to the end, THEN the events are exactly the reader's rows
+   (ConvertLineSim.ev_match): erasing the SetAddress events, event k is row k; a Row event has
+   address = (last SetAddress of the sequence, 0 if none) + address_offset, op_index, line, column, discriminator,
+   is_stmt, basic_block, prologue_end, epilogue_begin, isa verbatim and file = files[file register] in the final
+   FileId table; an EndSequence event is the reader's end_sequence row at base + offset (for a sequence without any
+   row only its end_sequence flag is claimed: the converter swallows the pending address of an empty sequence).
+   With C13's meaning of a writer script (address = base + address_offset, other registers verbatim:
+   LineWrSeqProofs.meaning) this is "writer script meaning = reader rows".
+   _partial because two clauses are missing: (1) sequences whose DW_LNE_set_address operand IS a tombstone value
+   (-1: skipped by both sides; -2: skipped by the reader only — the converted program carries the same operand and is
+   skipped again when read back) are outside the hypothesis and decided by c12.lineconv / c12.line only;
+   (2) the last composition step rows(read(write(script))) = meaning(script) is C13's program_roundtrip_v2_v4 / _v5,
+   whose hypothesis script_ok (offsets monotone and aligned: provable from line_convert_no_panic's invariant and
+   line_convert_error_or_exact; operation advance < 2^64: the VLIW / C13 known findings) is not discharged here. *)
+Theorem line_convert_sound_script_partial : forall dbg be sx s ls c0 rs evs cf,
+  LineRdMono.hdr_ok (ConvertLine.sh_h s) ->
+  ConvertLine.known_midseq dbg be (ConvertLine.sh_h s) = false ->
+  ConvertLineSim.addrs_below (ConvertLineSim.mtomb (ConvertLine.sh_h s))
+    (fst (LineRd.insns_model dbg be (ConvertLine.sh_h s))) = true ->
+  ConvertLine.cl_new dbg sx s ls = Ok c0 ->
+  LineRd.rows_model dbg be (ConvertLine.sh_h s) = (rs, LineRd.SEnd) ->
+  ConvertLine.events dbg be sx (ConvertLine.sh_h s) c0 = (evs, LineRd.SEnd, cf) ->
+  ConvertLineSim.ev_match (ConvertLine.cl_files cf) 0 false evs rs.
+Proof. exact ConvertLineSim.convert_events_sound. Qed.
+
+(* the hypotheses are met by a two-sequence program (special opcodes, advance_pc, fixed_advance_pc, set_file; the
+   second sequence has no set_address): reader rows at 0x3001 0x3006 0x301b, end 0x301b, then 0, end 3; events
+   SetAddress 0x3000, Row +1 +6 +27, EndSequence 27, Row 0, EndSequence 3 *)
+Example line_convert_sound_script_hyps : forall dbg,
+  LineRdMono.hdr_ok ConvertLineSim.wit_plain /\
+  ConvertLine.known_midseq dbg true ConvertLineSim.wit_plain = false /\
+  ConvertLineSim.addrs_below (ConvertLineSim.mtomb ConvertLineSim.wit_plain)
+    (fst (LineRd.insns_model dbg true ConvertLineSim.wit_plain)) = true /\
+  ConvertLineSim.plain_summary dbg =
+    Some (LineRd.SEnd, [12289; 12294; 12315; 12315; 0; 3], LineRd.SEnd,
+          [(0, 12288); (1, 1); (1, 6); (1, 27); (2, 27); (1, 0); (2, 3)]).
+Proof. exact ConvertLineSim.plain_witness. Qed.
+
+(* the class predicate is exactly "outside F10 and below the tombstones" *)
+Theorem line_convert_plain_class : forall mt is moved,
+  ConvertLineSim.plain_scan mt is moved =
+  negb (ConvertLine.midseq_scan is moved) && ConvertLineSim.addrs_below mt is.
+Proof. exact ConvertLineSim.plain_scan_iff. Qed.
+
 (* the two known-finding classes (Model/ConvertLine.v known_midseq = the class of harness/src/c12.rs
    midseq_set_address; known_vliw = maximum_operations_per_instruction > 1), with model witnesses *)
 Theorem line_convert_midseq_refuted : forall dbg,
@@ -716,3 +766,4 @@ Check line_convert_set_address_first. Check line_convert_set_address_midseq.
 Check line_convert_midseq_refuted. Check line_convert_vliw_refuted.
 Check line_convert_no_panic. Check line_convert_events_terminate. Check line_convert_new_ok.
 Check line_convert_define_file_safe.
+Check line_convert_sound_script_partial. Check line_convert_plain_class.
